@@ -66,7 +66,155 @@ pub fn eval(ctx: &mut Ctx, op: &str, args: &[Sexp]) -> Option<String> {
             }
             Some(format!("ok {}", if k1 == k2 { "same" } else { "differ" }))
         }
+        "pun" => {
+            // C15: borrowed and owned forms serialise identically; bytes deserialise to the owned conversion
+            let o = parse(args.first()?)?;
+            let b = leak(&o);
+            let conv = O::from(b);
+            if conv != o {
+                ctx.oracle_fail("From<&DataModelType> does not preserve the tree".into());
+            }
+            let bb = postcard::to_allocvec(b).map_err(|e| crate::core_ops::err_name(&e));
+            let ob = postcard::to_allocvec(&conv).map_err(|e| crate::core_ops::err_name(&e));
+            if bb != ob {
+                ctx.oracle_fail(format!("borrowed bytes {:?} differ from owned bytes {:?}", bb.as_ref().map(|x| hex(x)), ob.as_ref().map(|x| hex(x))));
+            }
+            if let Ok(bytes) = &bb {
+                let mut ext = bytes.clone();
+                ext.extend_from_slice(&[0xAA, 0x01]);
+                match postcard::take_from_bytes::<O>(&ext) {
+                    Ok((back, rest)) if back == conv && rest == [0xAA, 0x01] => {}
+                    other => ctx.oracle_fail(format!("bytes of the borrowed schema do not deserialise to the owned conversion: {:?}", other.map(|(s, r)| (show(&s), hex(r))))),
+                }
+            }
+            Some(match bb {
+                Ok(b) => format!("ok {}", hex(&b)),
+                Err(e) => format!("err {}", e),
+            })
+        }
+        "deowned" => {
+            let bytes = unhex(args.first()?.atom()?)?;
+            let r = crate::core_ops::guard(|| postcard::take_from_bytes::<O>(&bytes).map(|(s, r)| (show(&s), r.to_vec())).map_err(|e| crate::core_ops::err_name(&e)));
+            Some(match r {
+                Err(()) => "FAIL panic while deserialising an owned schema".into(),
+                Ok(Ok((s, rest))) => format!("ok {} rest={}", s, hex(&rest)),
+                Ok(Err(e)) => format!("err {}", e),
+            })
+        }
+        "fmt" => {
+            let o = parse(args.first()?)?;
+            let r = crate::core_ops::guard(|| o.to_pseudocode());
+            Some(match r {
+                Err(()) => {
+                    ctx.oracle_fail("to_pseudocode panicked".into());
+                    "FAIL panic in to_pseudocode".into()
+                }
+                Ok(s) => {
+                    // oracle (C19): a top-level struct/enum rendering mentions its name, field and variant names
+                    let mut names: Vec<String> = Vec::new();
+                    match &o {
+                        O::Struct { name, data } => {
+                            names.push(name.to_string());
+                            if let postcard_schema::schema::owned::OwnedData::Struct(fs) = data {
+                                names.extend(fs.iter().map(|f| f.name.to_string()));
+                            }
+                        }
+                        O::Enum { name, variants } => {
+                            names.push(name.to_string());
+                            for v in variants.iter() {
+                                names.push(v.name.to_string());
+                                if let postcard_schema::schema::owned::OwnedData::Struct(fs) = &v.data {
+                                    names.extend(fs.iter().map(|f| f.name.to_string()));
+                                }
+                            }
+                        }
+                        _ => {}
+                    }
+                    for n in names {
+                        if !s.contains(&n) {
+                            ctx.oracle_fail(format!("rendering does not mention the name {:?}", n));
+                        }
+                    }
+                    if format!("{}", o) != s {
+                        ctx.oracle_fail("Display differs from to_pseudocode".into());
+                    }
+                    format!("ok {}", hex(s.as_bytes()))
+                }
+            })
+        }
+        "discover" => {
+            let o = parse(args.first()?)?;
+            let r = crate::core_ops::guard(|| o.all_used_types());
+            Some(match r {
+                Err(()) => {
+                    ctx.oracle_fail("all_used_types panicked".into());
+                    "err panic".into()
+                }
+                Ok(set) => {
+                    if !set.contains(&o) {
+                        ctx.oracle_fail("the set of used types does not contain the schema itself".into());
+                    }
+                    let mut v: Vec<String> = set.iter().map(show).collect();
+                    v.sort();
+                    let mut s = String::from("ok");
+                    for x in v {
+                        s.push(' ');
+                        s.push_str(&x);
+                    }
+                    s
+                }
+            })
+        }
         _ => None,
+    }
+}
+
+pub fn gen_c15(r: &mut Rng, thorough: bool, out: &mut Vec<String>) {
+    for s in all_kinds() {
+        out.push(format!("pun {}", show(&s)));
+    }
+    let n = if thorough { 60_000 } else { 4_000 };
+    for i in 0..n {
+        let s = gen_schema(r, 1 + (i % 6) as u32, 1 + (i % 5) as u64);
+        out.push(format!("pun {}", show(&s)));
+        if let Ok(b) = postcard::to_allocvec(&s) {
+            if i % 3 == 0 {
+                // the owned deserialiser on valid, truncated, corrupted and random bytes
+                out.push(format!("deowned {}", hex(&b)));
+                let k = r.below(b.len() as u64 + 1) as usize;
+                out.push(format!("deowned {}", hex(&b[..k])));
+                let mut c = b.clone();
+                let k = r.below(c.len() as u64) as usize;
+                c[k] = r.next() as u8;
+                if !c.starts_with(&[0xff; 3]) {
+                    out.push(format!("deowned {}", hex(&c)));
+                }
+            }
+        }
+    }
+    for a in 0..=40u8 {
+        out.push(format!("deowned {}", hex(&[a])));
+        for b in [0u8, 1, 2, 3, 25, 26, 0x80] {
+            out.push(format!("deowned {}", hex(&[a, b])));
+        }
+    }
+}
+
+pub fn gen_c19(r: &mut Rng, thorough: bool, out: &mut Vec<String>) {
+    for s in all_kinds() {
+        out.push(format!("fmt {}", show(&s)));
+        out.push(format!("discover {}", show(&s)));
+    }
+    // arrays vs tuples, nested names
+    for s in ["(tuple u8 u8 u8)", "(tuple u8 u8 i8)", "(tuple (tuple u8 u8) (tuple u8 u8))", "(tuple)", "(tuple usize)", "(seq schema)", "(map isize usize)"] {
+        out.push(format!("fmt {}", s));
+        out.push(format!("discover {}", s));
+    }
+    let n = if thorough { 60_000 } else { 4_000 };
+    for i in 0..n {
+        let s = gen_schema(r, 1 + (i % 6) as u32, 1 + (i % 5) as u64);
+        out.push(format!("fmt {}", show(&s)));
+        out.push(format!("discover {}", show(&s)));
     }
 }
 
